@@ -30,6 +30,14 @@ class _StructTime(object):
         self.tm_zone = "SIM"
 
 
+class _BareStructTime(object):
+    """localtime() result that only knows the DST flag."""
+    __slots__ = ("tm_isdst",)
+
+    def __init__(self, isdst):
+        self.tm_isdst = isdst
+
+
 class SimClock(object):
     """Integer microseconds since the Unix epoch; moves only when told to,
     plus one microsecond per read so that successive reads are ordered."""
@@ -58,8 +66,12 @@ class TimeFacade(object):
     current operation, apply action.
     """
 
-    def __init__(self, clock, zones, cur=0, isdst=0):
+    def __init__(self, clock, zones, cur=0, isdst=0, with_gmtoff=True):
         self.clock = clock
+        # whether localtime() results carry tm_gmtoff / tm_zone (the real
+        # struct_time does on Linux; a hand-made stand-in, such as the
+        # upstream test fixture, need not)
+        self.with_gmtoff = with_gmtoff
         self.zones = [tuple(z) for z in zones]
         self.cur = cur
         self.isdst = isdst
@@ -115,6 +127,8 @@ class TimeFacade(object):
     def localtime(self, secs=None):
         tz, alt, dl = self.zones[self.cur]
         gmtoff = -alt if (self.isdst == 1 and dl) else -tz
+        if not self.with_gmtoff:
+            return _BareStructTime(self._served("isdst", self.isdst))
         return _StructTime(self._served("isdst", self.isdst), gmtoff)
 
     def __getattr__(self, name):
@@ -139,8 +153,10 @@ def install_time(facade):
     time.time = facade.time
 
 
-def fixed_utc_world():
-    facade = TimeFacade(SimClock(946684800 * 10 ** 6), [(0, 0, 0)])
+def fixed_utc_world(offset_minutes=0):
+    """A world whose local zone never changes (UTC unless told otherwise)."""
+    west = -60 * offset_minutes
+    facade = TimeFacade(SimClock(946684800 * 10 ** 6), [(west, west, 0)])
     install_time(facade)
     return facade
 
